@@ -453,6 +453,7 @@ func genC03Prog(rt *rapid.T, shape []int, n int, noPhysical string) []C03Step {
 	cur := cloneInts(shape)
 	pending := false
 	detached := false
+	copied := false
 	for i := 0; i < n; i++ {
 		rank := len(cur)
 		op := rapid.SampledFrom([]string{"T", "T", "T", "Tdefault", "UT", "Transpose", "Transpose", "Materialize", "SafeT", "RollAxis", "pkgT", "pkgTranspose"}).Draw(rt, "op")
@@ -460,8 +461,13 @@ func genC03Prog(rt *rapid.T, shape []int, n int, noPhysical string) []C03Step {
 			rec.Class("excluded:" + noPhysical)
 			op = "UT"
 		}
-		if op == "Materialize" {
-			detached = true // a compact copy: physical transposition is fine from here on
+		if op == "Materialize" && !copied {
+			detached = true // a compact copy of the view: physical transposition is fine from here on
+		}
+		if op == "SafeT" || op == "pkgT" || op == "RollAxis" {
+			// a safe copy of a strided view owns storage with the view's gaps (it is no view: Materialize
+			// hands it back as it is), so it stays inside the region
+			copied = true
 		}
 		switch op {
 		case "T", "Tdefault", "RollAxis", "SafeT", "pkgT":
